@@ -4,7 +4,7 @@
  * stolen while parked (the sequentially consistent, point-granular controller cannot exhibit those).
  *
  * usage: sync_stress_prog KIND W N ROUNDS PSEED NOISE
- *   KIND  mutex | cond | jc | uncond | once | felock
+ *   KIND  mutex | cond | cond2 (notify after unlock) | jc | uncond | once | felock
  *   W workers, N participants (meaning per kind), ROUNDS iterations, NOISE bystander threads that only yield.
  * output: RESULT ok | RESULT fail <detail>      (a hang is the caller's timeout)
  */
@@ -50,7 +50,7 @@ static void * mutex_body(void * a) {
 /* ---------------- cond: bounded buffer, nothing lost, nothing duplicated ---------------- */
 #define QCAP 4
 static myth_mutex_t qm; static myth_cond_t qne, qnf; static long q[QCAP]; static int qh, ql;
-static volatile long csum, psum, cgot;
+static volatile long csum, psum, cgot; static int notify_after_unlock;
 static void * cond_prod(void * a) {
   long id = (long)a; uint64_t r = mix(pseed * 3 + id);
   for (int i = 0; i < ROUNDS && !bad; i++) {
@@ -59,8 +59,13 @@ static void * cond_prod(void * a) {
     while (ql == QCAP) myth_cond_wait(&qnf, &qm);
     q[(qh + ql) % QCAP] = v; ql++;
     __sync_fetch_and_add(&psum, v);
-    if (r % 3) myth_cond_signal(&qne); else myth_cond_broadcast(&qne);
-    myth_mutex_unlock(&qm);
+    if (notify_after_unlock) {          /* "lock; change the predicate; unlock; notify" */
+      myth_mutex_unlock(&qm);
+      if ((id + i) % 2) myth_cond_signal(&qne); else myth_cond_broadcast(&qne);
+    } else {
+      if (r % 3) myth_cond_signal(&qne); else myth_cond_broadcast(&qne);
+      myth_mutex_unlock(&qm);
+    }
     if ((r >> 8) % 4 == 0) myth_yield();
   }
   return 0;
@@ -72,8 +77,13 @@ static void * cond_cons(void * a) {
     myth_mutex_lock(&qm);
     while (ql == 0) myth_cond_wait(&qne, &qm);
     long v = q[qh]; qh = (qh + 1) % QCAP; ql--;
-    if (r % 3) myth_cond_signal(&qnf); else myth_cond_broadcast(&qnf);
-    myth_mutex_unlock(&qm);
+    if (notify_after_unlock) {
+      myth_mutex_unlock(&qm);
+      if ((quota + i) % 2) myth_cond_signal(&qnf); else myth_cond_broadcast(&qnf);
+    } else {
+      if (r % 3) myth_cond_signal(&qnf); else myth_cond_broadcast(&qnf);
+      myth_mutex_unlock(&qm);
+    }
     if (v <= 0) FAIL("cond: consumer got the invalid value %ld", v);
     __sync_fetch_and_add(&csum, v); __sync_fetch_and_add(&cgot, 1);
     if ((r >> 8) % 4 == 0) myth_yield();
@@ -200,7 +210,8 @@ int main(int argc, char ** argv) {
     for (long i = 0; i < N; i++) th[n++] = myth_create(mutex_body, (void *)(i + 1));
     for (int i = 0; i < n; i++) myth_join(th[i], 0);
     if (!bad && mcount != (long)N * ROUNDS) FAIL("mutex: lock-protected counter is %ld, expected %ld", mcount, (long)N * ROUNDS);
-  } else if (!strcmp(kind, "cond")) {
+  } else if (!strcmp(kind, "cond") || !strcmp(kind, "cond2")) {
+    notify_after_unlock = !strcmp(kind, "cond2");
     myth_mutex_init(&qm, 0); myth_cond_init(&qne, 0); myth_cond_init(&qnf, 0);
     int P = (N + 1) / 2, C = N - P; if (C < 1) C = 1;
     long total = (long)P * ROUNDS;
